@@ -5,6 +5,7 @@ import MsVerif.Model.Encode
 import MsVerif.Model.Ext
 import MsVerif.Model.Satisfy
 import MsVerif.Spec.Hash
+import MsVerif.Spec.Frag
 
 namespace MsVerif.Driver
 open MsVerif Script
@@ -200,6 +201,20 @@ def opsMs (t : Tables) (kind op : String) (args : List String) : Option String :
     let ctx ← parseCtx ctx; let lt ← lt.toNat?; let sq ← sq.toNat?
     let script ← Hash.ofHex script; let wit ← parseHexList wit
     pure (execVerdict t ctx (limits == "1") script wit lt sq)
+  -- model-internal self check of the bridge statement: flat execution of the encoded script
+  -- equals the structured fragment semantics (limits off), on this concrete stack
+  | "C", "fragsame", ctx :: lt :: sq :: ast :: wit :: _ => do
+    let ctx ← parseCtx ctx; let lt ← lt.toNat?; let sq ← sq.toNat?
+    let ms ← parseAst ast; let wit ← parseHexList wit
+    let env := mkEnv t ctx false lt sq
+    let c0 : Core := ⟨wit.reverse, [], 0⟩
+    let flat := (run env (encode t.keyEnv ctx ms) ⟨c0, []⟩).map (·.core)
+    let str := frag env t.keyEnv ctx ms c0
+    let same := match flat, str with
+      | .ok a, .ok b => a == b
+      | .error a, .error b => a == b
+      | _, _ => false
+    pure (if same then "same" else "diff")
   | _, _, _ => none
 
 end MsVerif.Driver
